@@ -466,6 +466,11 @@ def run_property(pid, tier, seed, t0, pin=False):
         # a loop or a non-trivial closure that the pinned tree did not have carries no invariant / contract: the
         # verifier then knows nothing about it and the failure says "needs annotation", not "property broken"
         # (DESIGN 11.3); it counts only together with a failing input on the real code
+        if f["name"] in set(u.gen.hint_dropped_fns) and not found:
+            # a hint, loop contract or closure contract of this function lost its anchor (the statement / loop / closure it
+            # belonged to is gone) and was dropped: the proof may fail for lack of the hint, not because the property is broken
+            undecided.append(f"{ob_id}: fails after a proof hint / loop contract / closure contract lost its anchor and was dropped, and no failing input was found")
+            continue
         if f["name"] in set(u.gen.renamed_fns) and not found:
             undecided.append(f"{ob_id}: fails after its ghost text was adapted to renamed locals (R1.renamedlocal) and no failing input was found")
             continue
@@ -564,7 +569,11 @@ def run_property(pid, tier, seed, t0, pin=False):
         "obligation_table": obligations,
         "functions_under_contract": fns_uc,
         "rewrites": rewrites,
-        "dropped_by_extraction": "items not listed in the unit; bodies behind prelude stubs; string formatting arguments; attributes (R0); see DESIGN 2.2",
+        "dropped_by_extraction": {
+            "rule": "items of /repo not selected by a unit are not part of the generated file; within a selected impl / trait the items listed here were removed (R0.dropfn / R0.dropassoc); bodies behind prelude stubs, string formatting arguments and non-doc attributes (R0) are dropped; lifted loop bodies / closures lose their scaffold (R6 / R8); see DESIGN 11.2",
+            "removed_items": {f"{u.unit}@{u.model}": sorted(set(u.gen.dropped_items)) for u in runs if u.gen and u.gen.dropped_items},
+            "selectors_without_functions": {f"{u.unit}@{u.model}": u.gen.dropped for u in runs if u.gen and u.gen.dropped},
+        },
         "vacuity": {"ensures_false_rejected": sum(1 for v in vac if v[1]), "ensures_false_checked": len(vac)},
         "assumption_scan": scan_items,
         "bounded_checks": bounded,
